@@ -329,3 +329,77 @@ MANIFEST_TEXT["C05"] = dict(
          "Proved by a reference-count invariant of the registry model and a per-call simulation. Tied to the code by dumping the whole "
          "real storage through the public API for programs x filters and comparing with the model.",
     note=_CAP_NOTE, technique="Lean 4 proof (registry reference-count invariant + simulation against a declarative reference) + differential correspondence")
+
+
+# ---- per-property projections of the observation stream (DESIGN §3.3): a check compares only
+# ---- what its property constrains, so that a change breaking another property is reported there.
+def _groups(lines):
+    groups, cur = [], None
+    for l in lines:
+        if l.startswith("@"):
+            cur = [l]
+            groups.append(cur)
+        elif cur is None:
+            cur = ["@", l]
+            groups.append(cur)
+        else:
+            cur.append(l)
+    return groups
+
+
+def _proj_receiver(prop):
+    def proj(suite, lines):
+        if suite != "receiver":
+            return lines
+        out = []
+        for g in _groups(lines):
+            head, body = g[0], g[1:]
+            if prop == "C06":                      # accept / reject(kind) / panic
+                out += [l for l in body if l.startswith("r ")]
+            elif prop == "C07":                    # everything around rejections + persisted state
+                rej = any(l.startswith("r err") or l == "r panic" for l in body)
+                out += body if rej else [l for l in body if l.startswith(("r ", "pm ", "ps "))]
+            elif prop == "C04":                    # finalize batches, stacks, acceptance, persisted state
+                if head.startswith(("@h", "@end", "@host")):
+                    out += body
+                else:
+                    out += [l for l in body if l.startswith("r ")]
+            elif prop == "C08":                    # every host call (ids) and acceptance
+                out += [l for l in body if l.startswith(("c ", "r "))]
+            elif prop == "C09":                    # registrations, metadata objects, persisted metadata, counters
+                for l in body:
+                    if l.startswith(("c reg ", "pm ", "stats ")):
+                        out.append(l)
+                    elif l.startswith(("c new ", "c evt ")):
+                        out.append(" ".join(t for t in l.split(" ")[:4] if t.startswith("m") or t in ("c", "new", "evt")))
+            else:                                  # C02, C03: the whole observation
+                out += body
+        return out
+    return proj
+
+
+for _p in ["C02", "C03", "C04", "C06", "C07", "C08", "C09"]:
+    PROPS[_p]["project"] = _proj_receiver(_p)
+
+
+def _proj_prog(prop):
+    def proj(suite, lines):
+        if suite != "prog":
+            return lines
+        if prop == "C12":
+            return [l for l in lines if l.startswith("s ")]
+        return [l for l in lines if l.startswith(("n ", "t ", "r "))]
+    return proj
+
+
+for _p in ["C01", "C12", "C13"]:
+    PROPS[_p]["project"] = _proj_prog(_p)
+
+PROPS["C19"] = dict(suites=[("capconc", {Q: 60, T: 1500})],
+    rule="capconc suite: 2-3 threads under forced schedules (one operation at a time executed by the designated real thread; random "
+         "interleavings of per-thread programs of up to 8 ops, with 0-2 shared spans created by the main thread that threads may enter, "
+         "record on, follow or use as explicit parents) compared with the interleaving model; 2-16 free-running real threads with "
+         "programs of up to 30 (quick) / 120 (thorough) ops on one shared Registry + CaptureLayer (layer filters none / level / name), "
+         "checked per thread against the single-threaded reference run plus all C17 laws on the shared storage; all threads are kept "
+         "alive until the end of a case (the Registry's per-thread stacks live in recycled thread_local slots); non-trivial = >= 2 "
+         "threads creating spans (free) or a schedule alternating between threads at least twice (forced); distinct by input text")
